@@ -84,7 +84,7 @@ class DiskSource(Source[Iterable[str]]):
     In order to make this distinction gzip files must end with a gz extension.
     """
 
-    def __init__(self, path:str, mode:str='rt+', start_loc:int = 0, include_loc: bool = False):
+    def __init__(self, path:str, mode:str='rt', start_loc:int = 0, include_loc: bool = False):
         """Instantiate a DiskSource.
 
         Args:
